@@ -510,7 +510,8 @@ class ObjectBase(EntityContainer):
         if not isinstance(children, list):
             children = [children]
 
-        for child in children:
+        removed = []
+        for child in list(children):
             if child not in self._children:
                 continue
 
@@ -520,8 +521,9 @@ class ObjectBase(EntityContainer):
                 self.remove_data_from_groups(child)
 
             self._children.remove(child)
+            removed.append(child)
 
-        self.workspace.remove_children(self, children)
+        self.workspace.remove_children(self, removed)
 
     def remove_children_values(
         self,
